@@ -6761,7 +6761,11 @@ def _compute_deriv_errors(derivative_info, matrix_free, directional, totals, ato
         err_vals = _ErrorData()
 
         step = steps[i]
-        abs_mags.update(Jfd, 'fd')
+        # the magnitudes reported for this step (not one object shared by all steps)
+        step_mags = _MagnitudeData()
+        step_mags.forward = abs_mags.forward
+        step_mags.reverse = abs_mags.reverse
+        step_mags.update(Jfd, 'fd')
 
         if directional:
             if Jforward is not None:
@@ -6801,7 +6805,7 @@ def _compute_deriv_errors(derivative_info, matrix_free, directional, totals, ato
             rel_errs.fwd_rev = rel_errs_fwd_rev
 
         derivative_info['tol violation'].append(errs)
-        derivative_info['magnitude'].append(abs_mags)
+        derivative_info['magnitude'].append(step_mags)
         derivative_info['vals_at_max_error'].append(err_vals)
         derivative_info['abs error'].append(abs_errs)
         derivative_info['rel error'].append(rel_errs)
